@@ -58,6 +58,7 @@ def run(chk):
     chk.prove(generated=[translate_tables.keywords, translate_tables.binding_table])
     rng = chk.rng
     progs = [(o["source"], o.get("draws", [])) for _fn, o in load_corpus("C07") if "source" in o]
+    known_src = {o["source"]: o["known"] for _fn, o in load_corpus("C07") if "source" in o and o.get("known")}
     progs += [(p, []) for p in matrix_programs()]
     n_matrix = len(progs)
     feats = {}
@@ -88,7 +89,9 @@ def run(chk):
             continue
         nontriv = a.startswith("err Runtime") or a.count(",") >= 1
         chk.count(src if nontriv else None)
-        if not evallib.same_result(a, b) and dis is None:
+        if not evallib.same_result(a, b) and src in known_src:
+            chk.violation("corpus program: implementation %s, reference %s" % (a[:160], b[:160]), {"match_key": known_src[src], "source": src, "kind": "program"})
+        elif not evallib.same_result(a, b) and dis is None:
             dis = (src, a, b)
     chk.extra["verdicts"] = verdicts
     chk.extra["feature_histogram"] = feats
